@@ -937,7 +937,7 @@ theorem checkRetx (cfg : Cfg) (h : AccInv k) : AccInv (Kernel.checkRetx cfg k) :
   apply foldl_inv (P := AccInv)
   · apply foldl_inv (P := AccInv)
     · exact foldl_inv (P := fun acc : Kernel × List Nat × List Nat => AccInv acc.1) (Kernel.retxPass1Step cfg)
-        k.retxCands (k, [], []) h (fun b a hb => AccInv.retxPass1Step cfg b a hb)
+        (k.retxCands cfg) (k, [], []) h (fun b a hb => AccInv.retxPass1Step cfg b a hb)
     · intro b fd hb
       exact hb.emitHandshake fd
   · intro b fd hb
